@@ -332,7 +332,8 @@ impl VM {
                     let left = self.pop();
                     let result = match left.tag() {
                         Type::Float => unsafe { Object::float(-left.as_f64_unchecked(), gc) },
-                        Type::Int => Object::int(-left.as_int()),
+                        // 0 - x, so that negating the smallest integer is reported as an error
+                        Type::Int => Object::int(0).sub(left, gc)?,
                         _ => {
                             return Err(Error::TypeError(format!(
                                 "kan objecten met type {} niet omdraaien",
